@@ -1,6 +1,71 @@
-From Coq Require Import List String.
-From GinV Require Import Model.Values Model.Gin.
+(* C07 — the operative config records exactly what Gin supplied and suffices to replay.
+   Model: the Gin machine's operative record (Model/Gin.v: oper_update, prep_operative, configurable_defaults).
+   Proved here:
+     - sections: a call that is not rejected records a section for (current scope, configurable); sections
+       never disappear; operations that call nothing leave the record untouched, so a configurable that was
+       never called has no section (from the initial state: the record is empty);
+     - parameters: what ONE call contributes for a parameter p is: nothing if the caller supplied p
+       (positionally or by keyword), otherwise the bound value if there is one, otherwise the signature
+       default provided it is allowed by the allowlist, not in the denylist and representable;
+       merging into the section is a dict update (the most recent contribution wins, other sections unchanged).
+   NOT proved in Coq (validated on the implementation by harness/props/c07.py, a replay in a second
+   fresh gin): the replay clause — clearing, parsing operative_config_str() and repeating the calls gives
+   the same arguments and text (it goes through the real serialiser and parser). *)
+From Coq Require Import List String ZArith Bool Arith.
+From GinV Require Import Lib.Out Lib.PyStr Model.SelectorMap Model.Values Model.Gin Model.GinEngine Model.CallSpec
+                         Proofs.CallLemmas Proofs.CallProofs Proofs.MachineFrame Proofs.MachineProofs Proofs.MacroOperProofs.
 Import ListNotations.
-Theorem C07_placeholder : prefixes [1;2] = [[]; [1]; [1;2]].
-Proof. reflexivity. Qed.
-Print Assumptions C07_placeholder.
+Open Scope string_scope.
+Open Scope list_scope.
+
+(* ---- sections ---- *)
+Theorem C07_call_records_section : forall f s sel args kwargs s' r c, lookup_sel s sel = Some c ->
+  existsb is_req (skipn (List.length (supplied_positional_names (c_sig c) args)) args) = false ->
+  call (S f) s sel args kwargs = (s', r) -> cget (scope_str (current_scope s), sel) (operative s') <> None.
+Proof. exact C07_call_records_section_gen. Qed.
+
+Theorem C07_sections_only_grow : forall fuel s sel args kw s' r k, call fuel s sel args kw = (s', r) ->
+  cget k (operative s) <> None -> cget k (operative s') <> None.
+Proof. exact MacroOperProofs.C07_sections_only_grow. Qed.
+
+Theorem C07_non_call_ops_keep_operative : forall fuel ops s, Forall non_calling ops ->
+  operative (run_top fuel s ops) = operative s.
+Proof. exact C07_never_called_empty. Qed.
+
+Theorem C07_never_called_empty : forall fuel ops, Forall non_calling ops ->
+  operative (run_top fuel init_state ops) = [].
+Proof. exact C07_never_called_empty_init. Qed.
+
+(* ---- parameters ---- *)
+Theorem C07_call_contribution : forall cfg scope c args kwargs p,
+  sget p (prep_operative c args kwargs (prep_bindings cfg scope c args kwargs)) =
+  if (str_in p (supplied_positional_names (c_sig c) args) && negb (str_in p (required_positions (supplied_positional_names (c_sig c) args) args)))
+     || (str_in p (map fst kwargs) && negb (str_in p (map fst (filter (fun kv => is_req (snd kv)) kwargs))))
+  then None
+  else match sget p (get_bindings_for cfg scope (c_sel c) true) with
+       | Some v => Some v
+       | None => sget p (configurable_defaults c)
+       end.
+Proof. exact MacroOperProofs.C07_call_contribution. Qed.
+
+Theorem C07_defaults_recorded_iff : forall c p v,
+  (sget p (configurable_defaults c) = Some v <->
+   sget p (kwarg_defaults (c_sig c)) = Some v /\ (c_allow c = [] \/ str_in p (c_allow c) = true) /\
+   str_in p (c_deny c) = false /\ representable v = true).
+Proof. exact C07_configurable_defaults_spec_strong. Qed.
+
+Theorem C07_merge_most_recent_wins : forall s k vals, cget k (operative (oper_update s k vals)) =
+  Some (supdate (match cget k (operative s) with Some d => d | None => [] end) vals).
+Proof. exact C07_oper_update_get. Qed.
+Theorem C07_merge_other_sections_unchanged : forall s k k' vals, ckey_eqb k' k = false ->
+  cget k' (operative (oper_update s k vals)) = cget k' (operative s).
+Proof. exact C07_oper_update_other. Qed.
+
+Print Assumptions C07_call_records_section.
+Print Assumptions C07_sections_only_grow.
+Print Assumptions C07_non_call_ops_keep_operative.
+Print Assumptions C07_never_called_empty.
+Print Assumptions C07_call_contribution.
+Print Assumptions C07_defaults_recorded_iff.
+Print Assumptions C07_merge_most_recent_wins.
+Print Assumptions C07_merge_other_sections_unchanged.
